@@ -8,7 +8,7 @@ THEOREMS = ["C01_refines_spec", "C01_refines_spec_at", "C01_indistinguishable_by
             "C01_exactly_once", "C01_cancelled_never_returned", "C01_len_formula", "C01_cancel_after_fetch_noop"]
 QUICK_N = 3000; THOROUGH_N = 300000
 CLAIM = dict(
-    text="Machine-checked refinement (Coq 8.16, axiom-free): for every bucket count n>=1, width t>=1 and every add/cancel/fetch/len history the calendar-queue model returns exactly what a two-list priority-queue specification returns; the scan terminates; on the specification: non-decreasing fetch order, exactly-once accounting as a multiset equation, cancelled-never-returned, len formula, cancel-after-fetch no-op. The model is tied to des-cqueue by differential runs (extracted model vs real CQueue on the same generated histories) on every invocation, plus an independent monitor of the property on the implementation's outputs.",
+    text="Machine-checked refinement (Coq 8.16, axiom-free): for every bucket count n>=1, width t>=1 and every add/cancel/fetch/len history the calendar-queue model returns exactly what a two-list priority-queue specification returns; the scan terminates; on the specification: non-decreasing fetch order, exactly-once accounting as a multiset equation, cancelled-never-returned, len formula, cancel-after-fetch no-op. The model is tied to des-cqueue by differential runs (extracted model vs real CQueue on the same generated histories) on every invocation, plus an independent monitor of the property on the implementation's outputs. PARTS: `--part heap` covers the other backend, default_impl::FutureEventSet (BinaryHeap + zero queue, des built without the cqueue feature): modelled with the heap's tie choice as an oracle, C01's time-order / exactly-once / len / peek clauses proved for every oracle (C01_heap_*), checked against the real backend through the second harness crate harness_heap with the tie choices replayed from the implementation's own log. The generator includes parameterisations whose year n*t is 2^64 ns or more and histories beyond 2^64 ns.",
     note="Trusted: Coq kernel; extraction (ExtrOcamlBasic only) cross-checked in-Coq by vm_compute on a sample each run; harness/generator quality bounds the tie to the code; linked-list pointer code abstracted to lists (C15); integer overflow of ids/Duration out of scope.",
     technique="Coq refinement proof (forward simulation, invariant J + relation R) + differential correspondence check",
     design="6/C01")
@@ -17,7 +17,7 @@ RULE = ("scripts `n t op*` drawn from a structured generator (mostly-valid adds 
         " exercises at least two of the targeted mechanisms (tie, year wrap, add at current time, cancel pending, ...)")
 TRUSTED = ["intrusive linked list of linked_list.rs is modelled as a Coq list (pointer discipline: C15)",
            "usize/Duration overflow (event ids, t0 += t) is outside the model"]
-ASSUMPTIONS = ["times fit in 63 bits; scripts keep scan distances below ~3e5 bucket widths so that both runners finish"]
+ASSUMPTIONS = ["timestamps are given in script units of u ns (u up to 2^60) so that histories beyond 2^64 ns are reachable; numbers cross the model boundary as arbitrary-precision decimals; scripts keep scan distances below ~3e5 bucket widths so that both runners finish"]
 
 
 def gen(rng, n):
